@@ -433,6 +433,33 @@ def run_bufferless_and_legacy(ctx, rng, tie, cd, streams, n):
         ctx.count(("BD", len(s["parts"]) > 1, s["desc"].split("-")[0]), nontrivial=len(s["frame"]) > 0)
 
 
+def check_spec_against_R(ctx, tie, cd, streams):
+    """the theorems speak about DStreamModel.spec_decode (instantiated with R's block decoder); the oracle content of the
+    streams comes from the compressor's input / the frame builder.  Validate per run that the executable specification
+    agrees with the lead's reference decoder R (coq/Codec/Frame.v) and with that content on every stream used."""
+    sl = ["S s%d %s %s" % (i, "ml" if s["magicless"] else "-", codec.hx(s["frame"])) for i, s in enumerate(streams)]
+    rl = [("s%d" % i, ",".join((["magicless"] if s["magicless"] else []) + ["nostrict"]), None, s["frame"]) for i, s in enumerate(streams)]
+    so, serrs = tie.model(sl)
+    ro = cd.model(rl)
+    if serrs:
+        ctx.violation(dict(kind="model-crash", detail=serrs[:2]), what="the extracted specification decoder crashed: %r" % (serrs[0],), no_input=True)
+    for i, s in enumerate(streams):
+        sr = so.get("s%d" % i, "ERR missing")
+        rr = ro.get("s%d" % i, ("ERR", "missing", -1))
+        s_ok = sr.startswith("OK ")
+        s_out = codec.unhx(sr.split(" ")[1]) if s_ok else None
+        rep = dict(kind="spec-vs-R", frame_hex=s["frame"].hex()[:100000], desc=s["desc"], spec=sr[:120], R=str(rr[:2])[:120])
+        if s.get("valid", True):
+            if not s_ok or s_out != s["content"] or rr[0] != "OK" or rr[1] != s["content"]:
+                ctx.violation(rep, what="specification decoders disagree on a valid stream (%s): DStreamModel.spec_decode %s, R %s"
+                                        % (s["desc"], "OK" if s_ok and s_out == s["content"] else sr[:60], "OK" if rr[0] == "OK" and rr[1] == s["content"] else str(rr[:2])[:60]),
+                              no_input=True)
+        elif s.get("must_reject", True) and (s_ok or rr[0] == "OK"):
+            ctx.violation(rep, what="a damaged stream (%s, %s) is accepted by a specification decoder: spec_decode %s, R %s"
+                                    % (s["desc"], s.get("why"), sr[:40], rr[0]), no_input=True)
+        ctx.count(("SPEC", s.get("valid", True), len(s["parts"]) > 1, s["magicless"]), nontrivial=len(s["frame"]) > 0)
+
+
 def search_after_broken_proof(ctx, tie, cd):
     """a proof obligation no longer checks: run the direct oracles on a widened case set and report what they find"""
     def search(broken):
@@ -460,7 +487,9 @@ def run(ctx):
     streams = cc.build_streams(ctx, rng, cd, 60 * k, 40 * k, 25 * k)
     bad = damaged_streams(ctx, rng, cd, streams, 60 * k)
     corpus = corpus_streams()
-    cases = corpus_decoder_cases(corpus + corpus_damaged_streams())
+    cdam = corpus_damaged_streams()
+    check_spec_against_R(ctx, tie, cd, corpus + cdam + streams + bad)
+    cases = corpus_decoder_cases(corpus + cdam)
     cases += cc.decoder_cases(ctx, rng, streams, 3 if ctx.quick else 4)
     cases += boundary_decoder_cases(ctx, rng, streams, 45 * k)
     cases += boundary_decoder_cases(ctx, rng, bad, len(bad), first_id=100000)
